@@ -174,6 +174,34 @@ Proof.
     rewrite H1, <- app_assoc. reflexivity.
 Qed.
 
+Lemma dict_append_nonempty k v d : Forall (fun e : ref * list ref => snd e <> []) d ->
+  Forall (fun e : ref * list ref => snd e <> []) (dict_append k v d).
+Proof.
+  induction 1 as [|[k' vs] r Hk Hr IH]; simpl.
+  - constructor; [discriminate|constructor].
+  - destruct (ref_eqb k k'); constructor; auto. simpl. destruct vs; discriminate.
+Qed.
+
+Lemma fold_cstep_nonempty R : forall g rt du comp,
+  Forall (fun e : ref * list ref => snd e <> []) du ->
+  match fold_left cstep R (g, rt, du, comp) with
+  | (_, _, du', _) => Forall (fun e : ref * list ref => snd e <> []) du'
+  end.
+Proof.
+  induction R as [|[hy [[ho|] f]] R IH]; intros g rt du comp H; simpl; [exact H|..].
+  - destruct f; apply IH; auto. apply dict_append_nonempty. exact H.
+  - apply IH. exact H.
+Qed.
+
+Lemma sum_minus_one (du : list (ref * list ref)) :
+  Forall (fun e => snd e <> []) du ->
+  list_sum (map (fun e => List.length (snd e)) du) =
+  list_sum (map (fun e => List.length (snd e) - 1) du) + List.length du.
+Proof.
+  induction 1 as [|[k vs] r Hk Hr IH]; simpl; [reflexivity|].
+  simpl in Hk. destruct vs; [contradiction|]. simpl. lia.
+Qed.
+
 (* every entry goes to exactly one of the three descendant-side clusters *)
 Lemma entries_partition (R : list entry) :
   Permutation (map (fun e => href (fst e)) R) (flat_map gainS R ++ flat_map retS R ++ flat_map dupS R).
